@@ -337,7 +337,7 @@ func nontrivial(root *gen.NodeBP) bool {
 func TestCheckLaws(t *testing.T) {
 	s := harness.NewSub("equality-laws",
 		"random trees (<= 25 nodes, depth <= 4) over the node kinds with their own equality rule (plain, BIRT/DEAT/BURI/BAPM, RESI, EVEN, DATE incl. constrained/phrase/unparsable/alternative spellings, _UID well-formed/with checksum/malformed, NAME, PLAC, INDI and FAM in a document, role nodes), biased to same-kind and duplicate siblings; per tree: deep copy + aliasing mutation, ALL permutations of every child list with <= 4 entries plus random shuffles at every level, symmetry against an independent tree / an edited copy, and insert/delete/change edits at random positions; non-trivial = tree has >= 3 nodes and a non-plain kind or duplicate siblings; distinct by (law, case)")
-	s.Rapid(t, harness.Share(harness.Pick(40000, 1000000)), 70, func(rt *rapid.T) {
+	s.Rapid(t, harness.Share(harness.Pick(40000, 4000000)), 70, func(rt *rapid.T) {
 		tree := gen.EqTree(gen.EqTreeOpts{MaxNodes: 25, Roles: true}).Draw(rt, "tree")
 		nt := nontrivial(tree)
 		base := kinds(tree)
